@@ -374,6 +374,51 @@ func (p *Prog) FieldExact(rel, tn, fn string) *types.Var {
 	return nil
 }
 
+// logStructFields records all field names of rel.T (hint "S|rel|T"), so that a later run can tell
+// which fields are new.
+func (p *Prog) logStructFields(rel, tn string, st *types.Struct) {
+	var ns []string
+	for i := 0; i < st.NumFields(); i++ {
+		ns = append(ns, st.Field(i).Name())
+	}
+	p.logAnchor("S|"+rel+"|"+tn, strings.Join(ns, ","))
+}
+
+// FreshFields lists the fields of rel.T that did not exist (under any name the anchors know) when
+// the rules were written: fields that are not in the recorded list and that no renamed anchor
+// resolved to. Used when members of a guarded set or of a tuple are gone: a group of fields
+// folded into one struct-typed field shows up here.
+func (p *Prog) FreshFields(rel, tn string) []*types.Var {
+	rec, ok := AnchorHints["S|"+rel+"|"+tn]
+	if !ok {
+		return nil
+	}
+	old := map[string]bool{}
+	for _, n := range strings.Split(rec, ",") {
+		old[n] = true
+	}
+	n := p.Named(rel, tn)
+	if n == nil {
+		return nil
+	}
+	st, ok := n.Underlying().(*types.Struct)
+	if !ok {
+		return nil
+	}
+	var out []*types.Var
+	for i := 0; i < st.NumFields(); i++ {
+		f := st.Field(i)
+		if old[f.Name()] {
+			continue
+		}
+		if _, canon := CanonField[f]; canon {
+			continue
+		}
+		out = append(out, f)
+	}
+	return out
+}
+
 // FieldCanon returns the field of rel.T that the rules know as name: the field
 // of that name or, after a rename that was followed, the field whose canonical
 // name it is.
@@ -429,6 +474,7 @@ func (p *Prog) FieldSet(rel, tn string, names []string) (fields []*types.Var, un
 	if !ok {
 		return nil, names
 	}
+	p.logStructFields(rel, tn, st)
 	taken := map[*types.Var]bool{}
 	missingByType := map[string][]string{}
 	for _, name := range names {
